@@ -1247,9 +1247,13 @@ func (g *cGraph) fieldOfStruct(s CV, fld int, id FieldID, seen map[string]bool, 
 func (g *cGraph) deep(cv CV) CV {
 	for i := 0; i < 32; i++ {
 		cv = g.res(cv)
-		if lv, ok := g.valuesAt(cv); ok && len(lv) == 1 && g.res(lv[0].Val) != cv {
-			cv = lv[0].Val
-			continue
+		if lv, ok := g.valuesAt(cv); ok {
+			// the flow-sensitive answer is authoritative (it knows about the zero value and the order of assignments)
+			if len(lv) == 1 && !lv[0].Zero && g.res(lv[0].Val) != cv {
+				cv = lv[0].Val
+				continue
+			}
+			return cv
 		}
 		vals, ok := g.loadVals(cv)
 		if !ok || len(vals) == 0 {
@@ -1466,47 +1470,80 @@ func (g *cGraph) valuesAt(cv CV) ([]cgLeaf, bool) {
 	return g.valuesAtLoc(key, obj, start, instrIndex(u))
 }
 
-// valuesAtLoc: the values location key (of local object obj) may hold just before instruction idx of node start.
+// valuesAtLoc: the values location key (of local object obj) may hold just before instruction idx of node start:
+// its reaching assignments (or the zero value), each with the branch conditions that hold on EVERY path from that
+// assignment to the read (plus what dominates the assignment). Tests of the variable itself passed on the way
+// prune assignments of a contradicting constant (for !state.done { … state.done = true … }).
 func (g *cGraph) valuesAtLoc(key string, obj CV, start *cgNode, idx int) ([]cgLeaf, bool) {
 	objKey := cvKey(obj)
-	fail := false
-	var leaves []cgLeaf
-	type st struct {
-		n   *cgNode
-		idx int
+	type def struct {
+		n    *cgNode
+		i    int
+		val  CV
+		zero bool
 	}
-	onPath := map[*cgNode]bool{}
-	budget := 4000
-	var back func(n *cgNode, idx int, conds []cgCond)
-	back = func(n *cgNode, idx int, conds []cgCond) {
+	var defs []def
+	var extra []cgLeaf // leaves obtained through a struct copy
+	fail := false
+	// self-test requirement carried backwards: 0 none, 1 variable must be true, 2 false
+	selfTest := func(c cgCond) int {
+		cv, br := g.stripNot(c.Cond, c.Branch)
+		u, ok := cv.V.(*ssa.UnOp)
+		if !ok || u.Op != token.MUL {
+			return 0
+		}
+		if b, ok := u.Type().Underlying().(*types.Basic); !ok || b.Kind() != types.Bool {
+			return 0
+		}
+		if k, _, ok := g.memKey(CV{cv.C, u.X}); !ok || k != key {
+			return 0
+		}
+		if br {
+			return 1
+		}
+		return 2
+	}
+	constReq := func(v CV) int {
+		if kc, isK := g.res(v).V.(*ssa.Const); isK && kc.Value != nil && kc.Value.Kind() == constant.Bool {
+			if constant.BoolVal(kc.Value) {
+				return 1
+			}
+			return 2
+		}
+		return 0
+	}
+	type bstate struct {
+		n   *cgNode
+		req int
+	}
+	seen := map[bstate]bool{}
+	canReach := map[*cgNode]bool{} // nodes from which the read is reachable without crossing an assignment
+	var back func(n *cgNode, from int, req int)
+	back = func(n *cgNode, from int, req int) {
 		if fail {
 			return
 		}
-		budget--
-		if budget < 0 {
-			fail = true
-			return
-		}
-		for i := idx - 1; i >= n.lo; i-- {
-			in := n.B.Instrs[i]
-			switch y := in.(type) {
+		for i := from - 1; i >= n.lo; i-- {
+			switch y := n.B.Instrs[i].(type) {
 			case *ssa.Store:
 				k, o, ok := g.memKey(CV{n.C, y.Addr})
 				if ok && k == key {
-					leaves = append(leaves, cgLeaf{Val: CV{n.C, y.Val}, Conds: append(append([]cgCond{}, conds...), g.domConds(n)...)})
+					if c := constReq(CV{n.C, y.Val}); c != 0 && req != 0 && c != req {
+						return
+					}
+					defs = append(defs, def{n: n, i: i, val: CV{n.C, y.Val}})
 					return
 				}
-				if ok && cvKey(o) == objKey && k == objKey && key != objKey {
-					// whole-object store while a field is wanted: follow a struct copy `*obj = *other`
+				if ok && cvKey(o) == objKey && len(k) < len(key) && strings.HasPrefix(key, k) && (k == objKey || key[len(k)] == '#') {
+					// an enclosing (sub-)object is assigned as a whole: follow a struct copy `*obj = *other`
 					src := g.res(CV{n.C, y.Val})
 					if lu, isLoad := src.V.(*ssa.UnOp); isLoad && lu.Op == token.MUL {
-						if k2, o2, ok2 := g.memKey(CV{src.C, lu.X}); ok2 && k2 == cvKey(o2) && cvKey(o2) != objKey {
+						if k2, o2, ok2 := g.memKey(CV{src.C, lu.X}); ok2 && cvKey(o2) != objKey {
 							if ln := g.nodeOf(src.C, lu); ln != nil {
-								sub, ok3 := g.valuesAtLoc(k2+key[len(objKey):], o2, ln, instrIndex(lu))
-								if ok3 {
+								if sub, ok3 := g.valuesAtLoc(k2+key[len(k):], o2, ln, instrIndex(lu)); ok3 {
 									for _, l := range sub {
-										l.Conds = append(append(append([]cgCond{}, conds...), g.domConds(n)...), l.Conds...)
-										leaves = append(leaves, l)
+										l.Conds = append(append([]cgCond{}, g.domConds(n)...), l.Conds...)
+										extra = append(extra, l)
 									}
 									return
 								}
@@ -1518,7 +1555,10 @@ func (g *cGraph) valuesAtLoc(key string, obj CV, start *cgNode, idx int) ([]cgLe
 				}
 			case *ssa.Alloc:
 				if n.C == obj.C && ssa.Value(y) == obj.V {
-					leaves = append(leaves, cgLeaf{Conds: conds, Zero: true})
+					if req == 1 {
+						return
+					}
+					defs = append(defs, def{n: n, i: i, zero: true})
 					return
 				}
 			case ssa.CallInstruction:
@@ -1537,38 +1577,155 @@ func (g *cGraph) valuesAtLoc(key string, obj CV, start *cgNode, idx int) ([]cgLe
 				}
 			}
 		}
-		if onPath[n] {
-			return
-		}
-		onPath[n] = true
+		canReach[n] = true
 		for _, p := range n.preds {
 			if !g.reachable(p) {
 				continue
 			}
-			cs := conds
+			nr := req
 			if c, ok := g.edgeCond(p, n); ok {
-				cs = append(append([]cgCond{}, conds...), c)
+				if t := selfTest(c); t != 0 {
+					if req != 0 && req != t {
+						continue
+					}
+					nr = t
+				}
 			}
-			back(p, p.hi, cs)
+			st := bstate{p, nr}
+			if seen[st] {
+				continue
+			}
+			seen[st] = true
+			back(p, p.hi, nr)
 		}
-		onPath[n] = false
 	}
-	back(start, idx, nil)
-	if fail || len(leaves) == 0 {
+	back(start, idx, 0)
+	if fail || len(defs)+len(extra) == 0 {
 		return nil, false
 	}
-	// merge identical leaves
+	// nodes holding an assignment: they end the flow of the other assignments
+	defAt := map[*cgNode][]int{}
+	for _, d := range defs {
+		defAt[d.n] = append(defAt[d.n], d.i)
+	}
 	var out []cgLeaf
-	for _, l := range leaves {
-		dup := false
-		for _, o := range out {
-			if o.Zero == l.Zero && o.Val == l.Val && len(o.Conds) == len(l.Conds) {
-				dup = true
+	doneDef := map[string]bool{}
+	for _, d := range defs {
+		dk := fmt.Sprintf("%d:%d", d.n.idx, d.i)
+		if doneDef[dk] {
+			continue
+		}
+		doneDef[dk] = true
+		want := 0
+		if d.zero {
+			want = 2
+		} else {
+			want = constReq(d.val)
+		}
+		// forward must-dataflow of edge conditions from the assignment to the read
+		in := map[*cgNode]map[cgCond]bool{}
+		visited := map[*cgNode]bool{}
+		var result map[cgCond]bool
+		reached := false
+		meet := func(dst *cgNode, s map[cgCond]bool) bool {
+			if !visited[dst] {
+				visited[dst] = true
+				cp := map[cgCond]bool{}
+				for k := range s {
+					cp[k] = true
+				}
+				in[dst] = cp
+				return true
+			}
+			changed := false
+			for k := range in[dst] {
+				if !s[k] {
+					delete(in[dst], k)
+					changed = true
+				}
+			}
+			return changed
+		}
+		work := []*cgNode{}
+		flowOut := func(n *cgNode, s map[cgCond]bool) {
+			for _, sn := range n.succs {
+				es := s
+				if c, ok := g.edgeCond(n, sn); ok {
+					if t := selfTest(c); t != 0 && want != 0 && t != want {
+						continue // the variable holds the other value here
+					}
+					es = map[cgCond]bool{c: true}
+					for k := range s {
+						es[k] = true
+					}
+				}
+				if sn == start {
+					// arrives at the read (the part of its node before the read has no assignment, see below)
+					blocked := false
+					for _, di := range defAt[start] {
+						if di < idx {
+							blocked = true
+						}
+					}
+					if !blocked {
+						if !reached {
+							reached = true
+							result = map[cgCond]bool{}
+							for k := range es {
+								result[k] = true
+							}
+						} else {
+							for k := range result {
+								if !es[k] {
+									delete(result, k)
+								}
+							}
+						}
+					}
+					// the read's node may lie on a loop: keep flowing only if it can reach itself again
+				}
+				if !canReach[sn] && sn != start {
+					continue
+				}
+				if len(defAt[sn]) > 0 {
+					continue // another assignment takes over
+				}
+				if meet(sn, es) {
+					work = append(work, sn)
+				}
 			}
 		}
-		if !dup {
-			out = append(out, l)
+		if d.n == start && d.i < idx {
+			// assignment and read in the same node: no branch in between
+			reached = true
+			result = map[cgCond]bool{}
+		} else {
+			flowOut(d.n, map[cgCond]bool{})
+			for len(work) > 0 {
+				n := work[0]
+				work = work[1:]
+				flowOut(n, in[n])
+			}
 		}
+		if !reached {
+			continue
+		}
+		var conds []cgCond
+		for k := range result {
+			conds = append(conds, k)
+		}
+		sort.Slice(conds, func(i, j int) bool {
+			if conds[i].At.idx != conds[j].At.idx {
+				return conds[i].At.idx < conds[j].At.idx
+			}
+			return !conds[i].Branch && conds[j].Branch
+		})
+		conds = append(conds, g.domConds(d.n)...)
+		out = append(out, cgLeaf{Val: d.val, Zero: d.zero, Conds: conds})
+	}
+	out = append(out, extra...)
+	if len(out) == 0 {
+		return nil, false
 	}
 	return out, true
 }
@@ -1742,6 +1899,11 @@ func (g *cGraph) singleFieldValue(a CV, fa *ssa.FieldAddr) (CV, bool) {
 		}
 		for _, w := range refs(f2) {
 			if st, ok := w.(*ssa.Store); ok && st.Addr == ssa.Value(f2) {
+				// only an initialisation right at the allocation (struct literal): a later assignment would
+				// leave the zero value visible before it
+				if st.Block() != al.Block() {
+					return CV{}, false
+				}
 				return CV{base.C, st.Val}, true
 			}
 		}
@@ -1920,6 +2082,29 @@ func (g *cGraph) retFeasible(j, p *cgNode, conds []cgCond) bool {
 			if eq != (cmp.Op == token.EQL) {
 				return false
 			}
+		}
+	}
+	return true
+}
+
+// selfTestsAgree: among conds (collected walking back from a load to its reaching assignment), the ones that
+// test a load of the same variable (b / !b) are consistent with the variable holding val.
+func (g *cGraph) selfTestsAgree(key string, conds []cgCond, val bool) bool {
+	for _, dc := range conds {
+		c, br := g.stripNot(dc.Cond, dc.Branch)
+		u, ok := c.V.(*ssa.UnOp)
+		if !ok || u.Op != token.MUL {
+			continue
+		}
+		if b, ok := u.Type().Underlying().(*types.Basic); !ok || b.Kind() != types.Bool {
+			continue
+		}
+		k, _, ok := g.memKey(CV{c.C, u.X})
+		if !ok || k != key {
+			continue
+		}
+		if br != val {
+			return false
 		}
 	}
 	return true
